@@ -3,4 +3,5 @@ import SwcVerif.Model.AlgoRunTraverse
 import SwcVerif.Model.AlgoRunSort
 import SwcVerif.Model.AlgoRunSubtree
 import SwcVerif.Model.AlgoRunPopulation
+import SwcVerif.Model.AlgoRunNormalizer
 /-! all runners of generated definitions (imported by the root module only; the driver imports them one by one) -/
